@@ -666,6 +666,55 @@ def rule_sort_index(ctx: Ctx) -> None:
     ctx.floor("C01-8", 1)
 
 
+def rule_context_exit_and_clock(ctx: Ctx) -> None:
+    prog = ctx.prog
+    # C01-8b: leaving the run context advances the global counter from the active counter *before* the context is cleared
+    n = 0
+    for fn in prog.all_functions("happysimulator/core/"):
+        clears = [c for c in calls_in(fn.node) if isinstance(c.func, ast.Attribute) and c.func.attr == "set" and path_of(c.func.value) == "_active_counter_var"
+                  and c.args and isinstance(c.args[0], ast.Constant) and c.args[0].value is None]
+        if not clears:
+            continue
+        n += 1
+        ff = ctx.flow(fn)
+        cn = node_of(ff.cfg, clears[0])
+        reads = [x for x in ff.cfg.nodes if x.kind == "stmt" and isinstance(x.ast, ast.Assign) and isinstance(x.ast.value, ast.Call) and path_of(x.ast.value.func) == "_active_counter_var.get"]
+        adv = [c for c in calls_in(fn.node) if path_of(c.func) == "_advance_global_event_counter"]
+        ok = len(reads) == 1 and len(adv) == 1
+        why = ""
+        if ok:
+            holder = path_of(reads[0].ast.targets[0])
+            an = node_of(ff.cfg, adv[0])
+            ok = not always_before(ctx, fn, lambda x: x is reads[0], lambda x: x is cn) and not always_before(ctx, fn, lambda x: x is reads[0], lambda x: x is an) \
+                and holder in unparse(adv[0].args[0]) and ("__next__" in unparse(adv[0].args[0]) or "next(" in unparse(adv[0].args[0]))
+            # the advance may only be skipped when no counter was active
+            facts = ff.facts_at(an)
+            ok = ok and any(op == "isnot" and a == holder and b == "None" for (op, a, b) in facts)
+            # and the read must see the still-installed counter: no clearing of the var before the read
+            ok = ok and bool(always_before(ctx, fn, lambda x: x is cn, lambda x: x is reads[0]))
+        ctx.ob("C01-8", "G2", fn, clears[0], ok,
+               "when the run context is left, the global counter is advanced past the active counter's next index, read before the context variable is cleared — "
+               "events created while paused then sort after everything created during the run")
+    need(n >= 1, "C01-8: no site clears the active counter")
+    # C01-4: Clock.update is total — the loop's clock.update(t) must always take effect
+    cu = prog.func("happysimulator/core/clock.py", "Clock.update")
+    tp = [p for p in cu.params() if p != "self"][0]
+    ff = ctx.flow(cu)
+    bad = []
+    for p in enumerate_paths(ff, ff.cfg.entry):
+        if p.end != "exit":
+            continue
+        ws = [x.ast for x in p.nodes if x.kind == "stmt" and isinstance(x.ast, ast.Assign) and path_of(x.ast.targets[0]) == "self._current_time"]
+        if len(ws) != 1 or path_of(ws[0].value) != tp:
+            bad.append(p.describe())
+    ctx.ob("C01-4", "G6", cu, "Clock.update is total", not bad,
+           "Clock.update(t) sets the clock to t on every path (the engine, not the clock, enforces monotonicity; reset() rewinds through the same setter), so at each delivery "
+           "the clock equals the delivered event's timestamp" + ("" if not bad else f" — path [{bad[0]}] does not assign"))
+    nw = prog.func("happysimulator/core/clock.py", "Clock.now")
+    rets = [s_ for s_ in walk_stmts(nw.node.body) if isinstance(s_, ast.Return)]
+    ctx.ob("C01-4", "G7", nw, rets[0] if rets else None, len(rets) == 1 and path_of(rets[0].value) == "self._current_time", "Clock.now returns what update() stored")
+
+
 def _counter_continues(ctx: Ctx, fn, set_call: ast.Call) -> tuple[bool, str]:
     """Does the install site guarantee continuity?  Required chain (each link checked on the source):
     (1) on every path to the install, a ``count(<start>)`` re-basing has been evaluated — at the site or in a resolved
@@ -745,17 +794,22 @@ def _counter_continues(ctx: Ctx, fn, set_call: ast.Call) -> tuple[bool, str]:
             return False, (f"FAILS: start `{txt}` of the re-based counter does not derive from the creation indices of the events the heap "
                            "holds (no EventHeap attribute maintained from `_sort_index` on every push)")
         # the start must be at least that floor: max(..., floor) or the floor itself (+k)
-        if not (isinstance(start, ast.Call) and path_of(start.func) == "max") and path_of(start) != f"self.{floor_attrs[0]}":
-            return False, f"FAILS: start `{txt}` is not a max() over / equal to the heap's index floor"
+        own_next = isinstance(start, ast.Call) and path_of(start.func) == "max" and any(
+            "_event_counter" in unparse(a) and ("__next__" in unparse(a) or "next(" in unparse(a)) for a in start.args) and any(
+            path_of(a) == f"self.{floor_attrs[0]}" for a in start.args)
+        if not own_next:
+            return False, (f"FAILS: start `{txt}` is not max(<the counter's own next index>, <heap index floor>): events created but not yet pushed "
+                           "hold indices at or above the floor, so restarting at the floor re-issues them")
     return True, "holds: counter re-based above every index seen by the heap: " + "; ".join(unparse(s_) for _, s_ in starts)
 
 
 def run(ctx: Ctx) -> None:
-    rule_ordering_tables(ctx)
-    rule_heap_pairing(ctx)
-    rule_loops(ctx)
-    rule_autoterminate(ctx)
-    rule_sort_index(ctx)
+    ctx.guarded(rule_ordering_tables)
+    ctx.guarded(rule_heap_pairing)
+    ctx.guarded(rule_loops)
+    ctx.guarded(rule_autoterminate)
+    ctx.guarded(rule_sort_index)
+    ctx.guarded(rule_context_exit_and_clock)
 
 
 # ------------------------------------------------------------------------------------------------
@@ -800,6 +854,11 @@ MUTANTS = [
     ("tiebreak-floor-not-maintained", HEAP, "        heapq.heappush(self._heap, event)\n        if event._sort_index >= self._index_floor:\n            self._index_floor = event._sort_index + 1\n",
      "        heapq.heappush(self._heap, event)\n", "C01-8"),
     ("foreign-heap-write", "happysimulator/core/control/control.py", "    def peek_next(", "    def _drop_next(self):\n        self._sim._event_heap._heap.pop(0)\n\n    def peek_next(", "C01-3"),
+]
+MUTANTS += [
+    ("context-cleared-before-counter-read", FUT, "    active_counter = _active_counter_var.get(None)\n    if active_counter is not None:\n        _advance_global_event_counter(active_counter.__next__())\n    _active_heap_var.set(None)\n    _active_clock_var.set(None)\n    _active_counter_var.set(None)",
+     "    _active_heap_var.set(None)\n    _active_clock_var.set(None)\n    _active_counter_var.set(None)\n    active_counter = _active_counter_var.get(None)\n    if active_counter is not None:\n        _advance_global_event_counter(active_counter.__next__())", "C01-8"),
+    ("clock-ignores-backward-update", "happysimulator/core/clock.py", "        self._current_time = time\n", "        if time > self._current_time:\n            self._current_time = time\n", "C01-4"),
 ]
 REFACTORS = [
     ("fast-loop-no-event-time-alias", SIM, ["            event_time = event.time\n            if event_time < current_time:", "                    event_time,\n", "            current_time = event_time\n"],
